@@ -271,6 +271,11 @@ class StdioClient:
                     if isinstance(message, str):
                         # Raw string message (already JSON)
                         json_str = message
+                        if "\n" in json_str or "\r" in json_str:
+                            # NDJSON framing: one message is exactly one line, so a
+                            # pretty-printed (or newline-terminated) string is
+                            # re-serialised compactly instead of being sent as-is
+                            json_str = json.dumps(json.loads(json_str))
                         msg_method = None
                         msg_id = None
                     elif isinstance(message, dict):
